@@ -1,6 +1,6 @@
 #!/usr/bin/env python3
 """Writes /tmp/wt/<id>/TASK.md for a mutation sub-agent: property text + rules only (nothing from /verif's machinery)."""
-import json,sys
+import json,sys,glob,os
 props={json.loads(l)['id']:json.loads(l) for l in open('/verif/properties.jsonl')}
 T='''# Task: break one semantic property of golang/geo without the test suite noticing
 
@@ -28,7 +28,7 @@ Anchored in: {files}
 Mechanisms the property depends on:
 {mech}
 
-## What to produce
+{known}## What to produce
 
 TWO independent, different source changes ("mutants") to non-test .go files of the library, each of which
 makes the library violate the property above while
@@ -43,7 +43,7 @@ multi-step sequence of operations, a particular size threshold, a particular int
 each look fine alone. Do NOT produce changes that ordinary everyday use would expose at once. The two mutants
 should touch different mechanisms/functions.
 
-For each mutant k in {{1,2}} create the directory {wt}/mutants/m<k>/ containing:
+For each mutant k in {{{k1},{k2}}} create the directory {wt}/mutants/m<k>/ containing:
 
 * `patch.diff` — `git diff` of the library change only (relative to HEAD, applies with `git apply` at the
   worktree root; no test files, no files under mutants/).
@@ -63,5 +63,11 @@ can only find one, deliver one and say so.
 for pid in sys.argv[1:]:
     p=props[pid]; wt=f'/tmp/wt/{pid}'
     mech='\n'.join(f"- {m['name']} ({m['where']})" for m in p['anchors'].get('mechanism',[]))
-    open(f'{wt}/TASK.md','w').write(T.format(wt=wt,id=pid,title=p['title'],statement=p['statement'],qtext=p['quantifier']['text'],files=', '.join(p['anchors']['files']),mech=mech))
+    olds=sorted(glob.glob(f'/verif/seeded/{pid}-m*/meta.json'))
+    known=''
+    if olds:
+        known='## Changes that are already known (do NOT repeat these or close variants; pick other functions/mechanisms)\n\n'+''.join('- '+json.load(open(f))['summary'][:400]+'\n' for f in olds)+'\n'
+    k1=len(olds)+1
+    os.makedirs(wt,exist_ok=True)
+    open(f'{wt}/TASK.md','w').write(T.format(wt=wt,id=pid,title=p['title'],statement=p['statement'],qtext=p['quantifier']['text'],files=', '.join(p['anchors']['files']),mech=mech,known=known,k1=k1,k2=k1+1))
     print('wrote',wt)
